@@ -85,4 +85,17 @@ PrefixSoFar == Len(out) <= Len(Expand(1, 1, c1, c2)) /\ \A j \in 1..Len(out) : o
 DepthBound == maxdepth <= 3 /\ Len(stack) <= 3
 Terminates == <>(stack = <<>>)
 ExportTree == (Export /\ stack = <<<<1, 1>>>> /\ out = <<>>) => PrintT(<<"TREE", c1, c2, Content3, Expand(1, 1, c1, c2)>>)
+\* ---- the writer side (growth): an INCLUDE statement written for a path of `depth` directories of `seg` characters each ---------------
+\* the statement is  INCLUDE '<dirs>/<name>'; the reader joins the lines of a quoted name, so the writer may break it anywhere (it
+\* prefers the "/" and cuts a piece that is itself too long).  It must be broken when it is longer than the line limit, no line may be
+\* longer than the limit, the lines joined give the statement back, and however it is laid out the reader must open the file it names
+WrCases == {<<depth, seg, mx, rel>> : depth \in 0..5, seg \in {3, 9, 20}, mx \in {24, 40, 72}, rel \in BOOLEAN}
+NameLen == 9                                    \* "file3.bdf"
+PathLen(c) == c[1] * (c[2] + 1) + NameLen       \* every directory contributes its name and a "/"
+StatementLen(c) == 10 + PathLen(c)              \* INCLUDE, a blank and the two quotes
+MustWrap(c) == StatementLen(c) > c[3]
+MinLines(c) == (StatementLen(c) + c[3] - 1) \div c[3]
+WrLaws == \A c \in WrCases : (MustWrap(c) <=> MinLines(c) > 1) /\ MinLines(c) >= 1
+ExportWr == (Export /\ stack = <<<<1, 1>>>> /\ out = <<>> /\ c1 = <<>> /\ c2 = <<>>) =>
+   PrintT(<<"WRINC", {<<c, MustWrap(c), MinLines(c)>> : c \in WrCases}>>)
 =============================================================================
